@@ -15,6 +15,19 @@ ORDER_STRS = [bytes.fromhex("83bf"), bytes.fromhex("815b"), bytes.fromhex("889f"
               bytes.fromhex("83bf82a0"), bytes.fromhex("82a083bf"), bytes.fromhex("41889f"), bytes.fromhex("88ea41")]
 
 
+# strings built from ASCII and characters that take 2 bytes in UTF-8 AND 2 bytes in Shift-JIS (Latin-1 symbols, Greek, Cyrillic) and
+# contain no 3-byte-UTF-8 character: their encoded length equals their UTF-8 length, the tightest case for an encoder that sizes its
+# output buffer from the UTF-8 length; most of them END in an ASCII character (seeded change C01-8 dropped it: "90°C" -> "90°")
+SYMBOL_STRS = [bytes.fromhex("3930818b43"),        # 90°C
+               bytes.fromhex("35817e35"),          # 5×5
+               bytes.fromhex("817d78"),            # ±x
+               bytes.fromhex("83bf31"),            # α1
+               bytes.fromhex("81986181f762"),      # §a¶b
+               bytes.fromhex("844441"),            # ДA
+               bytes.fromhex("818b"),              # °
+               bytes.fromhex("4181804281804378")]  # A÷B÷Cx
+
+
 def hexb(b):
     return "B" + bytes(b).hex()
 
@@ -51,7 +64,7 @@ def random_content(rng, endian, max_size=64, cstrings=True, aligned_len=None):
         k = rng.randrange(len(cells))
         cells = cells[:k] + [c + sh for c in cells[k:]]
     text, ptr, cs = {}, {}, []
-    pool = ASCII_STRS + KANA_STRS + KANJI_STRS + ORDER_STRS
+    pool = ASCII_STRS + KANA_STRS + KANJI_STRS + ORDER_STRS + SYMBOL_STRS
     label_pool = pool          # any lossless name in either endianness (sort keys: gen/namekeys.py)
     dense = rng.random()
     longs = rng.random() < 0.15          # some archives carry strings of several hundred bytes
